@@ -214,6 +214,28 @@ fn cap_script(c: &CapCase) -> (Vec<String>, Option<ErrKind>, String) {
             None,
             "loops-abandoned".into(),
         ),
+        // a failing statement executed while a cap is (nearly) reached: which error wins is
+        // not specified, only the invariants and usability are checked (kinds starting with x-)
+        "x-for-badvar" | "x-for-badlimit" => {
+            let mut l = String::from("10 ");
+            for i in 1..=n {
+                l.push_str(&format!("FOR C{} = 1 TO 1 : ", i));
+            }
+            l.push_str(if c.kind == "x-for-badvar" { "FOR K$ = 1 TO 2 : PRINT \"in\"" } else { "FOR K = 1 TO \"x\" : PRINT \"in\"" });
+            (vec![l, "RUN".into(), "FOR J$ = 1 TO 2".into(), "FOR J = \"a\" TO 2".into()], None, "loops".into())
+        }
+        "x-gosub-undef" => (
+            vec![
+                "10 Z = 0 : GOSUB 100 : PRINT \"done\" : END".into(),
+                format!("100 Z = Z + 1 : IF Z < {} THEN GOSUB 100", n),
+                "110 GOSUB 9999".into(),
+                "RUN".into(),
+                "GOSUB 9999".into(),
+                "PRINT QQ9(\"a\")".into(),
+            ],
+            None,
+            "frames".into(),
+        ),
         "dim1" => (vec![format!("DIM V({})", n)], if n + 1 > ARRAY_CAP { Some(ErrKind::ArrayTooLarge) } else { None }, "cells".into()),
         "dim2" => (vec![format!("DIM V({},99)", n)], if (n + 1) * 100 > ARRAY_CAP { Some(ErrKind::ArrayTooLarge) } else { None }, "cells".into()),
         "implicit" => {
@@ -261,7 +283,7 @@ fn check_cap(c: &CapCase, rec: &mut CaseRec) -> Verdict {
             }
         }
     }
-    if last != want {
+    if !c.kind.starts_with("x-") && last != want {
         let key = if want.is_some() { "cap-exceeded-without-out-of-memory" } else { "out-of-memory-below-cap" };
         return Verdict::fail(key, format!("{} with n={}: expected {:?}, got {:?} (output {:?})", c.kind, c.n, want, last, printed(&out)));
     }
@@ -284,6 +306,9 @@ const CAP_CASES: &[(&str, &[u32])] = &[
     ("dim2", &[0, 98, 99, 100, 101, 4294967295]),
     ("implicit", &[1, 2, 3, 4, 5, 19, 20, 40]),
     ("implicit-write", &[1, 2, 3, 4, 5, 19, 20]),
+    ("x-for-badvar", &[1, 30, 31, 32, 33]),
+    ("x-for-badlimit", &[1, 30, 31, 32, 33]),
+    ("x-gosub-undef", &[1, 30, 31, 32, 33]),
 ];
 
 pub fn property() -> Property {
@@ -312,7 +337,7 @@ pub fn property() -> Property {
     ];
     Property {
         id: "C16",
-        rule: "cap-scripts (exhaustive list): GOSUB recursion to depth 1..100, 1..40 nested FOR loops over distinct variables, a FOR pair re-entered by GOTO up to 5000 times, loops abandoned by GOTO/RETURN up to 1000 times, DIM with 0..2^32-1 x {1, 100} cells around the 10000-cell cap, implicit arrays with 1..40 subscripts read and written; the error (OUT OF MEMORY STACK OVERFLOW / ARRAY TOO LARGE) must appear exactly when the stated cap is exceeded and the interpreter must stay usable. typing-sessions: ill-typed writes through LET, cell assignment, FOR variable, NEXT, READ, INPUT replies and parameter binding with $ and non-$ names. loop-sessions: FOR / NEXT / GOSUB / RETURN typed one statement per turn at the prompt, mixed with program lines whose THEN and ELSE clauses both open loops and counter-guarded re-entries. structured-/hostile-sessions: C01's generators. Invariant after every host call (snapshot hook): <= 32 frames; <= 32 open loops over pairwise distinct variables, each a FOR variable that occurred in the session; every array's cell count equals the product of its dimensions and is <= 10000; every scalar, array and frame binding has the kind its name's suffix demands. Non-trivial: the session reached depth >= 31, >= 31 open loops, an array of >= 5000 cells or a rejected ill-typed write; distinct by call-kind/outcome sequence.",
+        rule: "cap-scripts (exhaustive list): GOSUB recursion to depth 1..100, 1..40 nested FOR loops over distinct variables, a FOR pair re-entered by GOTO up to 5000 times, loops abandoned by GOTO/RETURN up to 1000 times, DIM with 0..2^32-1 x {1, 100} cells around the 10000-cell cap, implicit arrays with 1..40 subscripts read and written; ill-typed FORs and jumps to undefined lines executed with 30-33 loops / frames open (only the invariants are judged there); the error (OUT OF MEMORY STACK OVERFLOW / ARRAY TOO LARGE) must appear exactly when the stated cap is exceeded and the interpreter must stay usable. typing-sessions: ill-typed writes through LET, cell assignment, FOR variable, NEXT, READ, INPUT replies and parameter binding with $ and non-$ names. loop-sessions: FOR / NEXT / GOSUB / RETURN typed one statement per turn at the prompt, mixed with program lines whose THEN and ELSE clauses both open loops and counter-guarded re-entries. structured-/hostile-sessions: C01's generators. Invariant after every host call (snapshot hook): <= 32 frames; <= 32 open loops over pairwise distinct variables, each a FOR variable that occurred in the session; every array's cell count equals the product of its dimensions and is <= 10000; every scalar, array and frame binding has the kind its name's suffix demands. Non-trivial: the session reached depth >= 31, >= 31 open loops, an array of >= 5000 cells or a rejected ill-typed write; distinct by call-kind/outcome sequence.",
         assumptions: vec!["FOR variables of a session are extracted with the tokenizer hook (instrumentation only)"],
         fuzz: Some(FuzzSpec { target: "c16_invariants", runs: 150_000, max_len: 2048, verdict: crate::fuzz::c16_verdict }),
         families,
